@@ -470,6 +470,18 @@ impl<F: Field> Circuit<F> {
                 } => {
                     executor.preprocess(inputs, outputs, &mut preprocessed)?;
 
+                    // Hint-derived inputs the table itself creates on the bus (the coefficients
+                    // of `recompose/coeff`): later rows using them are readers, not creators.
+                    for wid in executor.created_input_witnesses(inputs) {
+                        let idx = wid.0 as usize;
+                        if hint_output_wids.contains(&wid.0) {
+                            if idx >= defined.len() {
+                                defined.resize(idx + 1, false);
+                            }
+                            defined[idx] = true;
+                        }
+                    }
+
                     // Track duplicate non-primitive outputs: first occurrence is a creator,
                     // subsequent occurrences are treated as readers on WitnessChecks.
                     let op_type = executor.op_type();
